@@ -105,9 +105,9 @@ def parseNodeTest (cfg : PCfg) (inp : Ast) (axis : String) (matchType : NType) (
       pure (mkAxis axis mt name "" prop inp, st)
     else do
       let pfx := st.s.pfx
-      let name := st.s.name
+      -- `prefix:*`: the scanner records the name "*"; it stands for "any local name" (empty)
+      let name := if st.s.name == "*" then "" else st.s.name
       let st ← st.next
-      let name := if st.s.name == "*" then "" else name
       if pfx != "" then
         match cfg.ns with
         | some m =>
@@ -146,9 +146,12 @@ def parseChain : Nat → PCfg → List Stage → PState → PRes
     let (opnd, st) ← parseChain f cfg rest st
     tierLoop f cfg ops rest opnd st
   | f+1, cfg, .unary :: rest, st => do
+    -- `signed`: at least one '-' (the run starts at the current token)
+    let signed := st.s.typ == .minus
     let (minus, st) ← skipMinus (f+1) st false
     let (opnd, st) ← parseChain f cfg rest st
-    pure (if minus then .oper "*" opnd (.num "-1") else opnd, st)
+    pure (if minus then .oper "*" opnd (.num "-1")
+          else if signed then .oper "*" (.oper "*" opnd (.num "-1")) (.num "-1") else opnd, st)
 
 def tierLoop : Nat → PCfg → List String → List Stage → Ast → PState → PRes
   | 0, _, _, _, _, _ => .error .fuel
